@@ -20,6 +20,7 @@ import (
 	"verifharness/execenv"
 	"verifharness/lib"
 	"verifharness/node"
+	"verifharness/vexec"
 )
 
 const forkH = 6
@@ -99,6 +100,7 @@ func runBatch(q batchReq) ([]txRes, error) {
 	ethRaw := r.Bytes(20)
 	restore := types.SetBlockedAccountsForTest([]string{blKeyAddr, blAddr2, "0x" + hex.EncodeToString(ethRaw)})
 	defer restore()
+	execenv.ExtraRegister = vexec.RegisterEVMStub
 	env, err := execenv.New(filepath.Join(os.Getenv("VERIF_TMP"), "n"), func(o *node.Options) {
 		o.Cfg = func(c *types.Config) {
 			if c.Address.EnableHeight == nil {
@@ -334,7 +336,7 @@ func run(c *lib.Ctx) {
 		"non-trivial = transaction touching a blacklisted account; distinct = (kind, position, spelling, height>=fork)")
 	c.Assume("main chain only (real-recipient differs from recipient only on parachains)",
 		"proxied transactions: eth-signed outer transaction to the configured proxy address carrying an inner coins transfer (the evm executor itself is not part of this repository); delayed transactions: submitted through EventAddDelayTx (the block-embedded none/CommitDelayTx route is not driven)",
-		"the pool of this repository refuses every transaction of the evm executor (ErrExecNameNotAllow: the evm plugin is not part of it), so for evm-shaped and proxied transactions only the block-execution clause is decided; the pool clause is vacuous for them")
+		"the evm executor is a plugin outside this repository: the harness registers a stand-in executor under the name evm (interprets nothing) so that evm-shaped and proxied transactions are admissible as on a chain that has the plugin")
 	n := c.N(900, 150000)
 	per := 150
 	nb := (n + per - 1) / per
@@ -402,6 +404,7 @@ func run(c *lib.Ctx) {
 	c.RequireEvents("clean_txs_accepted_by_pool", 50)
 	c.RequireEvents("clean_proxy_executed_ok", 5)
 	c.RequireEvents("clean_delay_accepted_by_pool", 5)
+	c.RequireEvents("clean_proxy_accepted_by_pool", 5)
 }
 
 func main() { lib.Main("C31", "exploration", run) }
